@@ -115,8 +115,15 @@ func (e *kvElection) checkKeyAndReelect(ctx context.Context) {
 				zap.String("new_leader_id", newLeaderID),
 			)...,
 		)
-		e.leaderID.Store(newLeaderID)
-		e.revision.Store(entry.Revision())
+		// The read may have been answered after this instance acquired the record in another
+		// goroutine (becomeLeader sets these fields under the same mutex): what it shows is then
+		// older than the instance's own record and must not replace the leader's identity and revision
+		e.mu.Lock()
+		if !e.isLeader.Load() {
+			e.leaderID.Store(newLeaderID)
+			e.revision.Store(entry.Revision())
+		}
+		e.mu.Unlock()
 	}
 }
 
